@@ -14,7 +14,7 @@ import os
 import re
 
 from ..bounds import Engine, Ptr, Obj, Obligation, UNKNOWN, _ev_all
-from ..lin import Lin, lin, ge, le, lt, gt, eq, entails
+from ..lin import Lin, lin, ge, le, lt, gt, eq, entails, feasible
 from ..facts import VERIF, load_program, children, strip_all_casts, walk, CALL_KINDS
 from ..rules import callee_is, call_args, field_name, object_of, mentions_field
 
@@ -22,6 +22,77 @@ from ..rules import callee_is, call_args, field_name, object_of, mentions_field
 def template_n(func):
     m = re.search(r'Buffer<(\d+),', func.cls or '')
     return int(m.group(1)) if m else None
+
+
+def ghost(eng, st, name):
+    key = ('ghost', name)
+    v = st.fields.get(key)
+    if v is None:
+        v = eng.named('ghost.' + name, st, 'unsigned long')
+        st.assume(le(v, 1 << 62))
+        st.fields[key] = v
+    return v
+
+
+def delivered(st):
+    """number of bytes copied out to the caller's memory so far (ReadBuffer::get)"""
+    n = lin(0)
+    for e in st.wlog:
+        if e[0] == 'copy' and isinstance(e[1], Ptr) and e[1].region == 'data':
+            n = n + e[3]
+    return n
+
+
+def norm(d, st):
+    """descriptor of a byte as position in the abstract byte stream, if it has one"""
+    if d[0] == 'stream':
+        return d
+    if d[0] == 'opaque' and isinstance(d[1], tuple) and d[1][0] == 'stream':
+        return ('stream', d[1][1] + d[2])
+    if d[0] == 'init' and d[1] == 'data' and ('ghost', 'append_base') in st.fields:
+        return ('stream', st.fields[('ghost', 'append_base')] + d[2])
+    return d
+
+
+def same_stream(st, d, want):
+    d = norm(d, st)
+    return d[0] == 'stream' and isinstance(d[1], Lin) and entails(st.cons, ge(d[1], want)) and \
+        entails(st.cons, le(d[1], want))
+
+
+def window_resolver(lo, hi, base):
+    """content invariant as a log entry: region[ k] == stream[ base + k - lo] for lo <= k < hi"""
+    def resolve(eng, st, off):
+        res = []
+        inside = st.copy()
+        inside.assume(ge(off, lo), lt(off, hi))
+        if inside.ok():
+            res.append((('stream', base + (off - lo)), inside))
+        for extra in ([lt(off, lo)], [ge(off, hi)]):
+            o = st.copy()
+            o.assume(*extra)
+            if o.ok():
+                res.append((('garbage',), o))
+        return res
+    return resolve
+
+
+def check_window(eng, s, region, lo, hi, base, what, when, node, func):
+    """for a symbolic k in [lo, hi): region[ k] is stream[ base + k - lo]"""
+    k = eng.fresh('k', s, 'unsigned long')
+    s2 = s.copy()
+    s2.assume(ge(k, lo), lt(k, hi))
+    bad = None
+    n = 0
+    if s2.ok():
+        for d, sa in eng.content_at(s2, region, k):
+            n += 1
+            if not same_stream(sa, d, base + (k - lo)):
+                bad = bad or 'byte %r of %s is %r, expected stream[ %r]; path [%s]' % (
+                    k, region.split('.')[-1], norm(d, sa), base + (k - lo), '; '.join(sa.trail[-6:]))
+    eng.obligations.append(Obligation(eng.root, 'stream', '%s %s' % (what, when), bad is None,
+                                      func.loc(node) if (func is not None and node is not None) else
+                                      (func.loc() if func is not None else ''), bad or ''))
 
 
 def invariants(eng, st, func, obj='this'):
@@ -32,13 +103,66 @@ def invariants(eng, st, func, obj='this'):
     region = '%s.mpBuffer.buf' % obj
     if region not in st.regions:
         st.regions[region] = lin(n)
+    track = eng.cfg.get('track_content')
     if 'ReadBuffer' in func.cls:
         s = eng.load(('field', obj, 'mDataStart'), st, None, func, 'unsigned long')
         e = eng.load(('field', obj, 'mDataEnd'), st, None, func, 'unsigned long')
-        res.append(('read window 0 <= mDataStart <= mDataEnd <= N', [ge(e, s), le(e, n), ge(s, 0)], None))
+        goals = [ge(e, s), le(e, n), ge(s, 0)]
+        post = None
+        if track:
+            c = ghost(eng, st, 'consumed')
+            f = ghost(eng, st, 'fetched')
+            # everything fetched from the source and not yet delivered is exactly the window
+            goals = goals + eq(f, c + delivered(st) + (e - s))
+
+            def post(en, s_, mode, region=region, obj=obj):
+                s0 = s_.fields[(obj, 'mDataStart')]
+                e0 = s_.fields[(obj, 'mDataEnd')]
+                base = ghost(en, s_, 'consumed') + delivered(s_)
+                if mode == 'assume':
+                    s_.wlog.append(('rebase', region, window_resolver(s0, e0, base)))
+                else:
+                    _, when, node, fn = mode
+                    check_window(en, s_, region, s0, e0, base, 'the window [mDataStart, mDataEnd) holds the next '
+                                 'undelivered bytes of the source, in order', when, node, fn)
+        res.append(('read window 0 <= mDataStart <= mDataEnd <= N' + (', fetched == delivered + window' if track
+                                                                    else ''), goals, post))
     elif 'WriteBuffer' in func.cls:
         w = eng.load(('field', obj, 'mWritePos'), st, None, func, 'unsigned long')
-        res.append(('write position mWritePos <= N', [le(w, n), ge(w, 0)], None))
+        goals = [le(w, n), ge(w, 0)]
+        post = None
+        if track:
+            a = ghost(eng, st, 'appended')
+            t = ghost(eng, st, 'sunk')
+            st.assume(ge(a, w))
+
+            def appended_now(s_):
+                # bytes accepted from the caller so far: at the exit of append() the whole block
+                extra = s_.fields.get(('ghost', 'append_len'), lin(0)) if s_.status in ('return', 'normal') and \
+                    s_.fields.get(('ghost', 'at_exit')) else lin(0)
+                return ghost(eng, s_, 'appended') + extra
+            goals = goals + [ge(a, w)]
+
+            def post(en, s_, mode, region=region, obj=obj):
+                w0 = s_.fields[(obj, 'mWritePos')]
+                if mode == 'assume':
+                    a0 = ghost(en, s_, 'appended')
+                    s_.assume(*eq(ghost(en, s_, 'sunk'), a0 - w0))
+                    s_.wlog.append(('rebase', region, window_resolver(lin(0), w0, a0 - w0)))
+                else:
+                    _, when, node, fn = mode
+                    a1 = ghost(en, s_, 'appended') + s_.fields.get(('ghost', 'append_len'), lin(0))
+                    t1 = ghost(en, s_, 'sunk')
+                    held = entails(s_.cons, ge(t1, a1 - w0)) and entails(s_.cons, le(t1, a1 - w0))
+                    en.obligations.append(Obligation(en.root, 'stream', 'everything appended and no longer buffered '
+                                                     'has been handed to the sink (sunk == appended - buffered) %s'
+                                                     % when, held, fn.loc(node) if (fn is not None and node is not None)
+                                                     else (fn.loc() if fn is not None else ''),
+                                                     '' if held else 'sunk %r, appended %r, buffered %r; path [%s]' % (
+                                                         t1, a1, w0, '; '.join(s_.trail[-6:]))))
+                    check_window(en, s_, region, lin(0), w0, a1 - w0, 'the buffer holds the last mWritePos appended '
+                                 'bytes, in order', when, node, fn)
+        res.append(('write position mWritePos <= N', goals, post))
     return res
 
 
@@ -51,6 +175,10 @@ def bind_param(eng, st, f, p):
             st.vars['len'] = ln
         st.regions['data'] = ln
         st.vars['data'] = Ptr('data', 0)
+        if f.short == 'append' and eng.cfg.get('track_content'):
+            # the caller's block is the next len bytes of the byte stream to be written
+            st.fields[('ghost', 'append_len')] = ln
+            st.fields[('ghost', 'append_base')] = ghost(eng, st, 'appended')
         return True
     return False
 
@@ -68,6 +196,11 @@ def m_read_data(eng, n, st, func, want):
             r = eng.fresh('data_read', s1, 'unsigned long')
             s1.assume(le(r, ln))
             eng.events.append(('readData', p, ln, s1))
+            if eng.cfg.get('track_content') and isinstance(p, Ptr):
+                # the source delivers the next r bytes of the stream
+                fetched = ghost(eng, s1, 'fetched')
+                eng.log_write(s1, ('opaque', p, r, ('stream', fetched)))
+                s1.fields[('ghost', 'fetched')] = fetched + r
             out.append((r, s1))
         else:
             out.append((eng.fresh('data_read', s1, 'unsigned long'), s1))
@@ -80,8 +213,22 @@ def m_write_data(eng, n, st, func, want):
     for (p, ln), s1 in _ev_all(eng, args[:2], st, func):
         if isinstance(ln, Lin):
             eng.access(s1, p, ln, 'writeData( ptr, len) hand-off', n, func, write=False)
-            s1.fields[('ghost', 'sunk')] = (p, ln, s1.fields.get(('this', 'mWritePos')))
             s1.fields[('ghost', 'sink_calls')] = s1.fields.get(('ghost', 'sink_calls'), lin(0)) + 1
+            if eng.cfg.get('track_content') and isinstance(p, Ptr):
+                # the bytes handed to the sink are the next ln bytes of the appended stream, in order
+                t = ghost(eng, s1, 'sunk')
+                j = eng.fresh('j', s1, 'unsigned long')
+                s2 = s1.copy()
+                s2.assume(ge(j, 0), lt(j, ln))
+                bad = None
+                if s2.ok():
+                    for d, sa in eng.content_at(s2, p.region, p.off + j):
+                        if not same_stream(sa, d, t + j):
+                            bad = bad or 'byte %r handed to the sink is %r, expected stream[ %r]; path [%s]' % (
+                                j, norm(d, sa), t + j, '; '.join(sa.trail[-6:]))
+                eng.obligations.append(Obligation(eng.root, 'stream', 'the sink receives the appended bytes in order, '
+                                                  'none lost, none twice', bad is None, func.loc(n), bad or ''))
+                s1.fields[('ghost', 'sunk')] = t + ln
         out.append((UNKNOWN, s1))
     return out
 
@@ -114,11 +261,20 @@ def m_up_get(eng, n, st, func, want):
     return out
 
 
+def loop_havoc(eng, head, func, loop):
+    """ghost counters changed inside the refill loop are unknown at its head (the invariant relates them again)"""
+    if ('ghost', 'fetched') in head.fields:
+        f = eng.fresh('ghost.fetched', head, 'unsigned long')
+        head.assume(le(f, 1 << 62))
+        head.fields[('ghost', 'fetched')] = f
+
+
 def make_engine(prog):
     cfg = {
         'invariants': invariants,
         'bind_param': bind_param,
         'inline': ('celma::common::',),
+        'track_content': True, 'content_invariant_loops': True, 'loop_havoc': loop_havoc,
         'models': {'readData': m_read_data, 'writeData': m_write_data,
                    'std::unique_ptr<unsigned char[], std::default_delete<unsigned char[]>>::*': m_up_get},
     }
